@@ -409,6 +409,10 @@ class C09(core.Check):
             p_ = zckref.parse(d_)
             ch_ = [(c["digest"] if c["comp_len"] else bytes(len(c["digest"])), c["udigest"], c["comp_len"], c["len"]) for c in p_.chunks]
             bases.append({"name": "empty-chunk-zero-digest-h%d" % cht_, "data": basefiles.rebuild(p_, d_, chunks=ch_, data_digest=p_.data_digest), "content": zckref.decode(d_).content})
+        # files of another writer (reference writer): unused bytes behind the signatures, optional header elements
+        for rb_ in basefiles.ref_set(self.seed + 9, 6 if self.quick else 16):
+            if "hdrtail" in rb_["name"] or "optelems" in rb_["name"] or not self.quick:
+                bases.append(rb_)
         words_long = all_words(2 if self.quick else 3)
         out = []
         for bi, b in enumerate(bases):
